@@ -1,0 +1,51 @@
+//go:build verif
+
+package pool
+
+// Read-only / test-plumbing hooks for the model-based conformance harness (/verif).
+// Compiled only with -tags verif; nothing here is reachable from production builds.
+
+// VerifRanked returns the ranked fallback list this node computes for a subscriber
+// (the list getHealthyOwner walks).
+func (p *PeerPool) VerifRanked(subscriberID string) []string {
+	p.mu.RLock()
+	nodes := p.peerNodes
+	p.mu.RUnlock()
+	ranked := rendezvousRanked(subscriberID, nodes)
+	out := make([]string, len(ranked))
+	copy(out, ranked)
+	return out
+}
+
+// VerifHealthyOwner returns the node Allocate/Release would address for a subscriber
+// given this node's current view of peer health.
+func (p *PeerPool) VerifHealthyOwner(subscriberID string) string {
+	return p.getHealthyOwner(subscriberID)
+}
+
+// VerifSetPeerHealth sets this node's view of a peer's health, as the health check loop
+// does after threshold consecutive failures / one success.
+func (p *PeerPool) VerifSetPeerHealth(nodeID string, healthy bool) {
+	p.healthMu.Lock()
+	defer p.healthMu.Unlock()
+	h, ok := p.peerHealthMap[nodeID]
+	if !ok {
+		h = &peerHealth{healthy: true}
+		p.peerHealthMap[nodeID] = h
+	}
+	h.healthy = healthy
+	if healthy {
+		h.consecutiveFailures = 0
+	} else if h.consecutiveFailures < p.healthThreshold {
+		h.consecutiveFailures = p.healthThreshold
+	}
+}
+
+// VerifPeerNodes returns a copy of the node list used for hashing.
+func (p *PeerPool) VerifPeerNodes() []string {
+	p.mu.RLock()
+	defer p.mu.RUnlock()
+	out := make([]string, len(p.peerNodes))
+	copy(out, p.peerNodes)
+	return out
+}
